@@ -156,7 +156,7 @@ def _gen_wdata(rng):
     n = rng.weighted([
         (20, rng.range(0, 10)), (25, rng.range(10, 300)), (10, rng.range(300, 4000)),
         (12, rng.choice([4095, 4096, 4097])), (14, rng.choice([8190, 8191, 8192, 8193, 8194])),
-        (8, rng.range(8195, 20000)), (3, rng.range(20000, 40000)),
+        (8, rng.range(8195, 20000)), (3, rng.range(20000, 40000)), (2, rng.choice([65536, 65537, 70000, 131073])),
     ])
     if t == "str":
         unit = rng.choice(["a", "xy", "line\n", "é", "0123456789", "p2sh ", "\t", "€uro\n"])
